@@ -204,6 +204,17 @@ class VOpaque(V):
         return "VOpaque(%s)" % self.tag
 
 
+class VRegex(V):
+    """A compiled regular expression (re.compile of a constant pattern): see pyvc.regex.Compiled."""
+    kind = "regex"
+
+    def __init__(self, compiled):
+        self.compiled = compiled
+
+    def __repr__(self):
+        return "VRegex(%r)" % self.compiled.pattern
+
+
 class VDyn(V):
     """Dynamically typed value of the uninterpreted sort PyVal (deserialized data, *args...)."""
     kind = "dyn"
